@@ -161,13 +161,22 @@ impl Explorer {
                 }
                 return Ok(());
             }
-            let mut live = Some(cluster);
+            // Timed mode: all clusters of a worker share one paused tokio clock, and a cluster
+            // that sits idle while its siblings let virtual time pass would find its own timers
+            // overdue. So a timed cluster is never kept across another cluster's execution:
+            // every child is rebuilt from the history.
+            let mut live = if self.opts.timed {
+                drop(cluster);
+                None
+            } else {
+                Some(cluster)
+            };
             let n = enabled.len();
             for (i, (ev, cost)) in enabled.into_iter().enumerate() {
                 if self.shared.stop.load(Ordering::Relaxed) {
                     return Ok(());
                 }
-                let mut c = if i + 1 == n {
+                let mut c = if i + 1 == n && live.is_some() {
                     live.take().unwrap()
                 } else {
                     build(&self.opts, &self.scratch, history, Some(&self.shared)).await?
